@@ -270,6 +270,10 @@ func (g *Gen) ACE(c *GConf) string {
 		} else {
 			s += []string{" log", " log-input"}[g.Rng.Intn(2)]
 		}
+	} else if !g.Small && g.Kind == "asa" && strings.HasSuffix(s, " 3 1") && len(s)%2 == 0 {
+		// ICMP type with code and a log level that the device shows by
+		// name (decided by the text generated so far, no further draw).
+		s += " log 4"
 	}
 	return s
 }
@@ -1212,6 +1216,16 @@ func (g *Gen) DeviceSpelling(text string) string {
 			}
 			l = strings.ReplaceAll(l, repl[j]+" ", repl[j+1]+" ")
 			l = strings.ReplaceAll(l, repl[j]+"\x00", repl[j+1]+"\x00")
+		}
+		if g.Kind == "asa" && strings.Contains(l, " icmp ") {
+			// The ASA shows ICMP types by name (a code stays a number).
+			for _, p := range [][2]string{{" 8", " echo"}, {" 0", " echo-reply"}, {" 3 1", " unreachable 1"}, {" 11", " time-exceeded"}} {
+				for _, end := range []string{"\x00", " log"} {
+					if strings.Contains(l, p[0]+end) && !strings.Contains(l, "."+strings.TrimSpace(p[0])+end) {
+						l = strings.Replace(l, p[0]+end, p[1]+end, 1)
+					}
+				}
+			}
 		}
 		l = strings.TrimSuffix(l, "\x00")
 		if g.Kind == "asa" && g.Rng.Intn(3) == 0 {
